@@ -22,14 +22,14 @@ JudgeExhaustive(e) ==
        THEN LET st == ParseStreamT(e.bytes, Lenient)
                 errs == MustRejectErrorsOf(e.bytes, st)
             IN IF errs # {} THEN PrintT(<<"REJECT", base.id, l, "C05.invalid-stream-decoded-silently", e.kind, e.at, errs>>)
-               ELSE IF Pcm(st.frames) # e.data THEN Rej("C05.altered-valid-stream-decodes-to-its-own-pcm", e) ELSE TRUE
+               ELSE IF Pcm(SubSeq(st.frames, 1, FramesWithinTotal(st))) # e.data THEN Rej("C05.altered-valid-stream-decodes-to-its-own-pcm", e) ELSE TRUE
        ELSE TRUE
 \* must-reject classes made by FlacGen (valid checksums): the altered stream may legitimately decode
 \* differently, so the reference is the model's own decode of the altered bytes
 JudgeExplicit(e) ==
     LET st == ParseStreamT(e.bytes, Lenient)
         errs == MustRejectErrorsOf(e.bytes, st)
-        okFrames == SelectSeq(st.frames, LAMBDA f : f.errs \ Lenient = {})
+        okFrames == SelectSeq(SubSeq(st.frames, 1, FramesWithinTotal(st)), LAMBDA f : f.errs \ Lenient = {})
         rangeIssue == \E i \in 1..Len(st.frames) : st.frames[i].errs \cap {"sample exceeds subframe depth", "decoded sample exceeds bit depth"} # {}
         spec == Pcm(okFrames)
         bounds == Bounds([i \in 1..Len(okFrames) |-> okFrames[i].bs * Len(okFrames[i].ch)], 1, 0)
